@@ -36,6 +36,9 @@ const (
 	fC02EarlyTie    = "F-C02-early-exit-ties"
 	fC02NegImpTag   = "F-C02-negated-tag-impossible-definition"
 	fC02InlineAlias = "F-C02-inline-tags-shared-backing"
+	fC02CleanConv   = "F-C02-data-clean-ignores-converter-name"
+	fC02NegSeqMulti = "F-C02-negated-sequence-across-converter-outputs"
+	fC02InvSeqNoOut = "F-C02-inverted-sequence-without-converter-output"
 )
 
 // ---------------------------------------------------------------------------------------------
@@ -291,7 +294,30 @@ func c02Abstract(r *vidx.SRec) *vq.Stream {
 	return s
 }
 
+// c02Conv is a converter whose cache holds output for some stream IDs.
+type c02Conv struct {
+	out map[uint64][]vq.Run
+}
+
+func (c *c02Conv) Data(*index.Stream, bool) ([]index.Data, uint64, uint64, bool, error) {
+	return nil, 0, 0, false, nil
+}
+
+// DataForSearch returns the cached output the way the converter cache does: the
+// per-direction concatenation and the cumulative sizes after each chunk.
+func (c *c02Conv) DataForSearch(streamID uint64) ([2][]byte, [][2]int, uint64, uint64, bool, error) {
+	runs, ok := c.out[streamID]
+	if !ok {
+		return [2][]byte{}, [][2]int{}, 0, 0, false, nil
+	}
+	l := vq.MakeLayout(runs)
+	sizes := make([][2]int, len(l.Cum))
+	copy(sizes, l.Cum)
+	return l.Buf, sizes, uint64(len(l.Buf[0])), uint64(len(l.Buf[1])), true, nil
+}
+
 type c02Pop struct {
+	conv    *c02Conv       // converter "c1", nil when the case has none
 	files   [][]*vidx.SRec // oldest first
 	visible []*c02Vis      // by increasing ID
 	byID    map[uint64]*c02Vis
@@ -377,7 +403,22 @@ func c02GenPop(t *rapid.T) *c02Pop {
 			files[fi] = rapid.Permutation(files[fi]).Draw(t, "fileorder")
 		}
 	}
-	return c02Finish(files)
+	pop := c02Finish(files)
+	if rapid.IntRange(0, 3).Draw(t, "converter") == 0 {
+		// a converter "c1" with cached output for some of the streams
+		pop.conv = &c02Conv{out: map[uint64][]vq.Run{}}
+		for _, v := range pop.visible {
+			if rapid.Bool().Draw(t, "converted") {
+				if c02FromPool(t, "convpool") {
+					pop.conv.out[v.s.ID] = rapid.SampledFrom(pools.payloads).Draw(t, "convout")
+				} else {
+					pop.conv.out[v.s.ID] = c02GenPayload(t)
+				}
+				v.s.Conv = map[string][]vq.Run{"c1": pop.conv.out[v.s.ID]}
+			}
+		}
+	}
+	return pop
 }
 
 // ---------------------------------------------------------------------------------------------
@@ -393,6 +434,7 @@ type c02Tag struct {
 	nPos      int       // conjuncts of the definition
 	nNeg      int       // conjuncts of the negated definition
 	raw       bool      // hand-written (fixed cases)
+	nested    bool      // the definition filters on earlier tags
 }
 
 func c02Bitmask(bits []uint) bitmask.LongBitmask {
@@ -459,30 +501,49 @@ func c02GenTags(t *rapid.T, open map[string]bool) (tags []*c02Tag, excluded int)
 	n := rapid.SampledFrom([]int{0, 1, 1, 2, 2, 3}).Draw(t, "ntags")
 	names := append([]string{}, rapid.Permutation(c02TagNames).Draw(t, "tagnames")[:n]...)
 	sort.Strings(names)
-	cfg := c02TagCfg(open)
-	for _, name := range names {
+	for i, name := range names {
 		tg := &c02Tag{name: name}
+		cfg := c02TagCfg(open)
+		if i > 0 && !open[fC02InlineAlias] && rapid.IntRange(0, 2).Draw(t, "nested") == 0 {
+			// a definition that filters on tags defined before it (the tag graph stays acyclic)
+			cfg.Tags = names[:i]
+			cfg.MaxDepth = 1
+			tg.nested = true
+		}
 		// the engine inlines the definition (or its negation) into every conjunct that
 		// filters on the tag: both normal forms are kept small (cost only)
+		pos, neg := 9, 9
 		e := c02DrawExpr(t, cfg, 6, "tagdef", func(e *vq.Node, hasProto bool) bool {
-			neg := &vq.Node{Kind: vq.KNot, Kids: []*vq.Node{e}}
-			if sz, _ := neg.DNFSize(); sz > 24 || (hasProto && sz > 6) {
+			ne := &vq.Node{Kind: vq.KNot, Kids: []*vq.Node{e}}
+			if sz, _ := ne.DNFSize(); sz > 24 || (hasProto && sz > 6) {
 				return false
 			}
-			q, err := query.Parse(neg.Render())
-			return err == nil && len(q.Conditions) <= 6
+			pq, err := query.Parse(e.Render())
+			if err != nil {
+				return false
+			}
+			nq, err := query.Parse(ne.Render())
+			if err != nil {
+				return false
+			}
+			pos, neg = c02InlinedSize(pq.Conditions, tags), c02InlinedSize(nq.Conditions, tags)
+			return pos <= 8 && neg <= 8
 		})
 		tg.defText = e.Render()
 		if err := tg.parse(); err != nil {
 			t.Fatalf("tag definition %q does not parse: %v", tg.defText, err)
 		}
-		tg.nNeg = 6 // upper bound established above (1 for the leaf fallback)
+		tg.nPos, tg.nNeg = 8, 8 // upper bounds; exact when the closure accepted the expression last
+		if pos <= 8 && neg <= 8 {
+			tg.nPos, tg.nNeg = pos, neg
+		}
 		if open[fC02NegImpTag] && tg.def.Conditions == nil {
 			// a definition that can never match is inlined wrongly under negation: use one that can
 			tg.defText = "id::5"
 			if err := tg.parse(); err != nil {
 				t.Fatalf("tag definition %q does not parse: %v", tg.defText, err)
 			}
+			tg.nPos, tg.nNeg, tg.nested = 1, 1, false
 			excluded++
 		}
 		bits := rapid.SliceOfDistinct(rapid.UintRange(0, 33), rapid.ID[uint])
@@ -565,6 +626,7 @@ type c02SortSpec struct {
 
 type c02Search struct {
 	raw       string // fixed cases: the query text as written (expr is nil)
+	conv      string // converter selector on every payload filter of the expression
 	expr      *vq.Node
 	sortFirst bool // the sort term precedes the expression
 	sorting   []c02SortSpec
@@ -620,9 +682,54 @@ func (sp *c02Search) render() map[string]any {
 	return m
 }
 
-func c02GenSearch(t *rapid.T, cfg vq.GenConfig, tags []*c02Tag) *c02Search {
+func c02GenSearch(t *rapid.T, cfg vq.GenConfig, tags []*c02Tag, hasConv bool) *c02Search {
 	sp := &c02Search{}
-	sp.expr = c02DrawExpr(t, cfg, 40, "expr", func(e *vq.Node, hasProto bool) bool {
+	// one converter selector per query: the engine refuses to mix them
+	sels := []string{"", "", "", "none"}
+	if hasConv {
+		sels = []string{"", "", "none", "c1", "c1"}
+	}
+	if sp.conv = rapid.SampledFrom(sels).Draw(t, "convsel"); sp.conv != "" {
+		cfg.Conv = []string{sp.conv}
+	}
+	if len(tags) >= 2 && rapid.IntRange(0, 5).Draw(t, "tagheavy") == 0 {
+		// several (negated) tag filters side by side: every undecided tag multiplies the conjunct when inlined
+		sp.expr = c02TagHeavyExpr(t, cfg, tags)
+		if q, err := query.Parse(sp.expr.Render()); err == nil && c02InlinedSize(q.Conditions, tags) > 150 {
+			sp.expr = c02DrawSearchExpr(t, cfg, tags) // cost bound
+		}
+	} else {
+		sp.expr = c02DrawSearchExpr(t, cfg, tags)
+	}
+	c02GenSearchRest(t, sp)
+	return sp
+}
+
+func c02TagHeavyExpr(t *rapid.T, cfg vq.GenConfig, tags []*c02Tag) *vq.Node {
+	n := rapid.IntRange(2, 3).Draw(t, "ntagatoms")
+	if n > len(tags) {
+		n = len(tags)
+	}
+	nd := &vq.Node{Kind: vq.KAnd, ExplicitAnd: rapid.Bool().Draw(t, "explicit")}
+	if rapid.IntRange(0, 3).Draw(t, "tagor") == 0 {
+		nd.Kind = vq.KOr
+	}
+	for _, tg := range rapid.Permutation(tags).Draw(t, "tagatoms")[:n] {
+		typ, name, _ := strings.Cut(tg.name, "/")
+		k := &vq.Node{Kind: vq.KAtom, Atom: &vq.Atom{Key: typ, Names: []string{name}}}
+		if rapid.Bool().Draw(t, "negtag") {
+			k = &vq.Node{Kind: vq.KNot, Kids: []*vq.Node{k}, Bang: rapid.Bool().Draw(t, "bang")}
+		}
+		nd.Kids = append(nd.Kids, k)
+	}
+	if rapid.Bool().Draw(t, "extraatom") {
+		nd.Kids = append(nd.Kids, &vq.Node{Kind: vq.KAtom, Atom: vq.GenAtom(t, cfg)})
+	}
+	return nd
+}
+
+func c02DrawSearchExpr(t *rapid.T, cfg vq.GenConfig, tags []*c02Tag) *vq.Node {
+	return c02DrawExpr(t, cfg, 40, "expr", func(e *vq.Node, hasProto bool) bool {
 		if len(tags) == 0 {
 			return true
 		}
@@ -637,6 +744,9 @@ func c02GenSearch(t *rapid.T, cfg vq.GenConfig, tags []*c02Tag) *c02Search {
 		}
 		return c02InlinedSize(q.Conditions, tags) <= lim
 	})
+}
+
+func c02GenSearchRest(t *rapid.T, sp *c02Search) {
 	n := rapid.SampledFrom([]int{0, 0, 1, 1, 1, 2, 2, 2, 3, 3}).Draw(t, "nsort")
 	for i := 0; i < n; i++ {
 		sp.sorting = append(sp.sorting, c02SortSpec{Key: rapid.SampledFrom(c02SortKeys).Draw(t, "sortkey"), Desc: rapid.Bool().Draw(t, "desc")})
@@ -652,7 +762,6 @@ func c02GenSearch(t *rapid.T, cfg vq.GenConfig, tags []*c02Tag) *c02Search {
 		}
 	}
 	sp.extract = rapid.Bool().Draw(t, "extract")
-	return sp
 }
 
 // ---------------------------------------------------------------------------------------------
@@ -821,6 +930,14 @@ type c02World struct {
 	tags    []*c02Tag
 }
 
+func (w *c02World) converters() map[string]index.ConverterAccess {
+	m := map[string]index.ConverterAccess{}
+	if w.pop.conv != nil {
+		m["c1"] = w.pop.conv
+	}
+	return m
+}
+
 func (w *c02World) close() {
 	for _, r := range w.readers {
 		r.Close()
@@ -951,7 +1068,7 @@ func c02Check(w *c02World, sp *c02Search, q *query.Query, cs c02CondShape) (stri
 	res.shape = c02ShapeOf(cs, q.Sorting, limit, skip)
 	res.limited = limit != 0 && uint(len(M)) > limit+skip
 
-	got, more, _, err := index.SearchStreams(context.Background(), w.readers, restrict, q.ReferenceTime, q.Conditions, nil, q.Sorting, limit, skip, td, map[string]index.ConverterAccess{}, sp.extract)
+	got, more, _, err := index.SearchStreams(context.Background(), w.readers, restrict, q.ReferenceTime, q.Conditions, nil, q.Sorting, limit, skip, td, w.converters(), sp.extract)
 	if err != nil {
 		switch err.Error() {
 		case "complex host condition not supported", "SubQueries not yet fully supported", "all data conditions must have the same converter name":
@@ -1087,6 +1204,79 @@ func c02Check(w *c02World, sp *c02Search, q *query.Query, cs c02CondShape) (stri
 
 // c02Steer changes a drawn search so that it avoids the shapes of open findings;
 // it reports whether the search was changed.
+// c02UsesTagWithPayloadDefinition: the query filters on a tag whose definition
+// (or the definition of a tag it filters on) holds payload filters. Those carry
+// no converter selector, so inlining them next to payload filters with a
+// selector mixes converter names.
+func c02UsesTagWithPayloadDefinition(conds query.ConditionsSet, tags []*c02Tag) bool {
+	payload := map[string]bool{}
+	for _, tg := range tags { // definitions only refer to earlier tags
+		for _, conj := range tg.def.Conditions {
+			for _, cc := range conj {
+				switch x := cc.(type) {
+				case *query.DataCondition:
+					payload[tg.name] = true
+				case *query.TagCondition:
+					if payload[x.TagName] {
+						payload[tg.name] = true
+					}
+				}
+			}
+		}
+	}
+	for _, conj := range conds {
+		for _, cc := range conj {
+			if tc, ok := cc.(*query.TagCondition); ok && payload[tc.TagName] {
+				return true
+			}
+		}
+	}
+	return false
+}
+
+// c02InvertedSequence: the normal form holds an inverted payload sequence of two or more elements.
+func c02InvertedSequence(conds query.ConditionsSet) bool {
+	for _, conj := range conds {
+		for _, cc := range conj {
+			if dc, ok := cc.(*query.DataCondition); ok && dc.Inverted && len(dc.Elements) >= 2 {
+				return true
+			}
+		}
+	}
+	return false
+}
+
+// c02UsesTagWithSequenceDefinition: the query filters on a tag with undecided
+// streams whose definition (or that of a tag it filters on) holds a payload
+// sequence of two or more elements.
+func c02UsesTagWithSequenceDefinition(conds query.ConditionsSet, tags []*c02Tag) bool {
+	seq := map[string]bool{}
+	for _, tg := range tags { // definitions only refer to earlier tags
+		for _, conj := range tg.def.Conditions {
+			for _, cc := range conj {
+				switch x := cc.(type) {
+				case *query.DataCondition:
+					if len(x.Elements) >= 2 && len(tg.uncertain) != 0 {
+						seq[tg.name] = true
+					}
+				case *query.TagCondition:
+					if seq[x.TagName] && len(tg.uncertain) != 0 {
+						seq[tg.name] = true
+					}
+				}
+			}
+		}
+	}
+	for _, conj := range conds {
+		for _, cc := range conj {
+			if tc, ok := cc.(*query.TagCondition); ok && seq[tc.TagName] {
+				return true
+			}
+		}
+	}
+	return false
+}
+
 // c02InlineAliasShape: a conjunct with three tag filters of which at least one
 // is inlined (the tag has undecided streams and the filter does not accept
 // both undecided outcomes alike).
@@ -1166,7 +1356,23 @@ func c02RenderWorld(pop *c02Pop, tags []*c02Tag) map[string]any {
 	for _, tg := range tags {
 		tl = append(tl, map[string]any{"name": tg.name, "definition": tg.defText, "matches": tg.matches, "uncertain": tg.uncertain})
 	}
-	return map[string]any{"index_files_oldest_first": files, "tags": tl}
+	m := map[string]any{"index_files_oldest_first": files, "tags": tl}
+	if pop.conv != nil {
+		co := map[string]any{}
+		for _, id := range vidx.SortedIDs(pop.conv.out) {
+			runs := []string{}
+			for _, r := range pop.conv.out[id] {
+				x := fmt.Sprintf("%d:%q", r.Dir, r.Data)
+				if len(x) > 60 {
+					x = fmt.Sprintf("%s...(%d bytes)", x[:48], len(r.Data))
+				}
+				runs = append(runs, x)
+			}
+			co[fmt.Sprint(id)] = runs
+		}
+		m["converter_c1_cached_output"] = co
+	}
+	return m
 }
 
 func c02Key(pop *c02Pop, tags []*c02Tag, searches []*c02Search) string {
@@ -1186,6 +1392,11 @@ func c02Key(pop *c02Pop, tags []*c02Tag, searches []*c02Search) string {
 	for _, sp := range searches {
 		fmt.Fprintf(&sb, "%s|%d|%d|%v|%v;", sp.text(), sp.limit, sp.page, sp.limitTerm, sp.restrict)
 	}
+	if pop.conv != nil {
+		for _, id := range vidx.SortedIDs(pop.conv.out) {
+			fmt.Fprintf(&sb, "c%d=%v;", id, pop.conv.out[id])
+		}
+	}
 	return sb.String()
 }
 
@@ -1197,7 +1408,7 @@ func c02Prop(rt *rapid.T, c *vlib.Case, open map[string]bool) {
 		tagNames[i] = tg.name
 	}
 	cfg := c02ExprCfg(open, tagNames)
-	searches := rapid.SliceOfN(rapid.Custom(func(t *rapid.T) *c02Search { return c02GenSearch(t, cfg, tags) }), 1, 12).Draw(rt, "searches")
+	searches := rapid.SliceOfN(rapid.Custom(func(t *rapid.T) *c02Search { return c02GenSearch(t, cfg, tags, pop.conv != nil) }), 1, 12).Draw(rt, "searches")
 
 	render := func(extra map[string]any) any {
 		m := c02RenderWorld(pop, tags)
@@ -1229,6 +1440,10 @@ func c02Prop(rt *rapid.T, c *vlib.Case, open map[string]bool) {
 	c.LabelIf(pop.mixedFamilies, "pop:v4+v6")
 	c.LabelIf(len(pop.visible) >= 10, "pop:visible>=10")
 	c.Labelf("tags=%d", len(tags))
+	c.LabelIf(pop.conv != nil, "pop:converter-with-cached-output")
+	for _, tg := range tags {
+		c.LabelIf(tg.nested, "pop:tag-definition-filters-on-tag")
+	}
 
 	if exTags != 0 {
 		c.Count("excluded_known", exTags)
@@ -1241,6 +1456,28 @@ func c02Prop(rt *rapid.T, c *vlib.Case, open map[string]bool) {
 		q, err := query.Parse(text)
 		if err != nil {
 			rt.Fatalf("generated query %q does not parse: %v", text, err)
+		}
+		if open[fC02CleanConv] && sp.conv != "" && c02UsesTagWithPayloadDefinition(q.Conditions, tags) {
+			c.Count("excluded_known", 1)
+			c.Label("steered:" + fC02CleanConv)
+			continue
+		}
+		if sp.conv == "c1" && c02InvertedSequence(q.Conditions) && len(pop.conv.out) < len(pop.visible) {
+			// "a then not b" searched in the output of a named converter, for a stream without cached
+			// output of it: the engine says it matches (no data, nothing contradicts) while the normaliser
+			// assumes it implies "a"; which of the two is meant is not documented, so it is not asserted
+			if open[fC02InvSeqNoOut] {
+				c.Count("excluded_known", 1)
+				c.Label("steered:" + fC02InvSeqNoOut)
+			} else {
+				c.Label("not-asserted:inverted-sequence-without-converter-output")
+			}
+			continue
+		}
+		if open[fC02NegSeqMulti] && pop.conv != nil && c02UsesTagWithSequenceDefinition(q.Conditions, tags) {
+			c.Count("excluded_known", 1)
+			c.Label("steered:" + fC02NegSeqMulti)
+			continue
 		}
 		if open[fC02InlineAlias] && c02InlineAliasShape(q.Conditions, tags) {
 			c.Count("excluded_known", 1)
@@ -1288,6 +1525,7 @@ func c02Prop(rt *rapid.T, c *vlib.Case, open map[string]bool) {
 		c.LabelIf(sp.restrict != nil, "id-restriction")
 		c.LabelIf(!r.orderChk, "order-not-asserted(v4/v6-host-sort)")
 		c.LabelIf(sp.expr.HasData(), "payload-filter")
+		c.LabelIf(sp.expr.HasData() && pop.conv != nil, "payload-filter:conv="+sp.conv)
 		c.LabelIf(pop.shadowed > 0 && len(pop.files) >= 2 && r.matches >= 2, "search-over-shadowed-stack")
 		if r.matches >= 2 && ((len(pop.files) >= 2 && pop.shadowed > 0) || r.limited || ops || r.usesTag) {
 			nontrivial = true
@@ -1323,10 +1561,48 @@ func TestVerifC02(t *testing.T) {
 // ---------------------------------------------------------------------------------------------
 // fixed cases: reproducers of findings (open: KNOWN-FINDING probe, fixed: regression)
 
+// c02UnionConsistency checks the engine against itself: what a search without
+// limit returns for a normal form is the union of what it returns for each
+// of its conjuncts.
+func c02UnionConsistency(w *c02World, q *query.Query) string {
+	td := w.tagDetails(q.ReferenceTime)
+	ids := func(conds query.ConditionsSet) (map[uint64]bool, error) {
+		got, _, _, err := index.SearchStreams(context.Background(), w.readers, nil, q.ReferenceTime, conds, nil, nil, 0, 0, td, w.converters(), false)
+		m := map[uint64]bool{}
+		for _, s := range got {
+			m[s.ID()] = true
+		}
+		return m, err
+	}
+	whole, err := ids(q.Conditions)
+	if err != nil {
+		return "search failed: " + err.Error()
+	}
+	union := map[uint64]bool{}
+	for i := range q.Conditions {
+		part, err := ids(q.Conditions[i : i+1])
+		if err != nil {
+			return "search failed: " + err.Error()
+		}
+		for id := range part {
+			union[id] = true
+		}
+	}
+	if fmt.Sprint(vidx.SortedIDs(whole)) != fmt.Sprint(vidx.SortedIDs(union)) {
+		return fmt.Sprintf("normal form %s: the search returns streams %v, the searches for its %d alternatives return %v", q.Conditions.String(), vidx.SortedIDs(whole), len(q.Conditions), vidx.SortedIDs(union))
+	}
+	return ""
+}
+
 type c02FixedCase struct {
 	files  [][]*vidx.SRec
 	tags   []*c02Tag
 	search *c02Search
+	conv   map[uint64][]vq.Run // cached output of converter c1
+	// the engine may refuse the query as unsupported instead of answering it
+	mayRefuse bool
+	// compare the engine with itself only (whole normal form vs. union of its conjuncts)
+	unionOnly bool
 }
 
 func c02FixedRec(id uint64, ftimeOffUS int64, cport, sport uint16, clientPayload string, next *uint64) *vidx.SRec {
@@ -1340,6 +1616,14 @@ func c02FixedRec(id uint64, ftimeOffUS int64, cport, sport uint16, clientPayload
 
 func c02FixedRun(fc c02FixedCase) (string, any) {
 	pop := c02Finish(fc.files)
+	if fc.conv != nil {
+		pop.conv = &c02Conv{out: fc.conv}
+		for _, v := range pop.visible {
+			if runs, ok := fc.conv[v.s.ID]; ok {
+				v.s.Conv = map[string][]vq.Run{"c1": runs}
+			}
+		}
+	}
 	rendering := c02RenderWorld(pop, fc.tags)
 	rendering["search"] = fc.search.render()
 	dir, err := os.MkdirTemp("", "c02-fixed-")
@@ -1356,8 +1640,11 @@ func c02FixedRun(fc c02FixedCase) (string, any) {
 	if err != nil {
 		return fmt.Sprintf("%q does not parse: %v", fc.search.text(), err), rendering
 	}
+	if fc.unionOnly {
+		return c02UnionConsistency(w, q), rendering
+	}
 	msg, r := c02Check(w, fc.search, q, c02CondShapeOf(q.Conditions, w.tagDetails(q.ReferenceTime)))
-	if msg == "" && r.discard != "" {
+	if msg == "" && r.discard != "" && !(fc.mayRefuse && r.discard == "engine-unsupported") {
 		msg = "fixed case did not reach the oracle: " + r.discard
 	}
 	return msg, rendering
@@ -1413,12 +1700,50 @@ func c02FixedCases(name string) []c02FixedCase {
 			{files: [][]*vidx.SRec{f}, tags: tg(), search: &c02Search{raw: "-tag:a -tag:b -tag:c", limit: 100}},
 			{files: [][]*vidx.SRec{f}, tags: tg(), search: &c02Search{raw: "-tag:c -tag:b -tag:a", limit: 0}},
 		}
+	case fC02CleanConv:
+		// tag/a = "no aa from the server" is undecided for stream 1 whose raw server data holds aa while the
+		// cached output of converter c1 is empty: -sdata.c1:aa of the query and -sdata:aa of the inlined
+		// definition search different data but are merged into one filter. Refusing the mix is fine too.
+		f := []*vidx.SRec{c02FixedRec(1, 0, 1001, 80, "", &next), c02FixedRec(2, 1000000, 1002, 80, "", &next)}
+		f[0].Packets = append(f[0].Packets, vidx.SPacket{File: "c02.pcap", Index: 1000, TimeUS: f[0].Packets[0].TimeUS, Dir: 1, Payload: []byte("aab")})
+		tg := func() []*c02Tag {
+			return []*c02Tag{{name: "tag/a", defText: "-sdata:aa", uncertain: []uint{1, 2}, raw: true}}
+		}
+		conv := map[uint64][]vq.Run{1: {}, 2: {}}
+		return []c02FixedCase{
+			{files: [][]*vidx.SRec{f}, tags: tg(), conv: conv, mayRefuse: true, search: &c02Search{raw: "tag:a -sdata.c1:aa", limit: 100}},
+			{files: [][]*vidx.SRec{f}, tags: tg(), conv: conv, mayRefuse: true, search: &c02Search{raw: "tag:a -sdata.none:aa", limit: 100}},
+		}
+	case fC02NegSeqMulti:
+		// tag/a = "aa then bb from the client" is undecided for stream 3, which has no raw payload and whose
+		// cached converter output holds aa but no bb: the definition is false for it, so -tag:a must list it.
+		// The negated sequence is expanded to (no aa) or (aa then no bb), and each alternative must hold on
+		// every data source at once: the raw data only satisfies the first, the converter output only the second.
+		f := []*vidx.SRec{c02FixedRec(3, 0, 1003, 80, "", &next), c02FixedRec(4, 1000000, 1004, 80, "aabb", &next)}
+		tg := func() []*c02Tag {
+			return []*c02Tag{{name: "tag/a", defText: "cdata:aa then cdata:bb", uncertain: []uint{3, 4}, raw: true}}
+		}
+		conv := map[uint64][]vq.Run{3: {{Dir: 0, Data: []byte("aa")}}}
+		return []c02FixedCase{
+			{files: [][]*vidx.SRec{f}, tags: tg(), conv: conv, search: &c02Search{raw: "-tag:a", limit: 100}},
+			{files: [][]*vidx.SRec{f}, tags: tg(), conv: conv, search: &c02Search{raw: "tag:a", limit: 100}},
+		}
+	case fC02InvSeqNoOut:
+		// stream 4 has no cached output of converter c1. "cc then not x" in c1's output is answered with
+		// "matches" for it when searched alone, but next to the alternative "cc" the normaliser (run again by
+		// the engine) drops it as implied by "cc", which does not match stream 4: the whole query loses it.
+		// Checked against the engine itself, so either reading of the filter passes once both agree.
+		f := []*vidx.SRec{c02FixedRec(3, 0, 1003, 80, "", &next), c02FixedRec(4, 1000000, 1004, 80, "aabb", &next)}
+		conv := map[uint64][]vq.Run{3: {{Dir: 1, Data: []byte("zz")}}}
+		return []c02FixedCase{
+			{files: [][]*vidx.SRec{f}, conv: conv, unionOnly: true, search: &c02Search{raw: "sdata.c1:cc then (cport:1: or -cdata.c1:x or sport:0:)"}},
+		}
 	}
 	return nil
 }
 
 func TestVerifC02Fixed(t *testing.T) {
-	names := []string{fC02Double, fC02EarlyTie, fC02NegImpTag, fC02InlineAlias}
+	names := []string{fC02Double, fC02EarlyTie, fC02NegImpTag, fC02InlineAlias, fC02CleanConv, fC02NegSeqMulti, fC02InvSeqNoOut}
 	vlib.Fixed(t, "C02", names, func(name string) (string, any) {
 		cases := c02FixedCases(name)
 		if len(cases) == 0 {
